@@ -494,7 +494,17 @@ def auto_patterns(vs, body):
     allv = set(range(len(vs)))
     full = [t for _sz, t, vv in cands if vv == allv]
     if full:
-        return full[:2]
+        # one trigger per distinct array / function symbol (so that the axiom fires from either side), at most 6
+        out, heads = [], set()
+        for t in full:
+            h = t.arg(0).get_id() if t.decl().kind() == z3.Z3_OP_SELECT else t.decl().name()
+            if h in heads:
+                continue
+            heads.add(h)
+            out.append(t)
+            if len(out) == 6:
+                break
+        return out
     # multi-pattern: greedily cover the variables with the smallest terms
     chosen, covered = [], set()
     for _sz, t, vv in cands:
